@@ -1031,6 +1031,7 @@ def run(ctx):
     lean_as_is(ctx)
     try:
         constants_check(ctx)
+        corpus_stream(ctx, cat)
         n_pol = policy_stream(ctx, cat)
         ctx.count('policy-cases', n_pol)
         numeric_stream(ctx, cat, plan_numeric(ctx, cat))
@@ -1039,6 +1040,55 @@ def run(ctx):
         finish_run(ctx)
     ctx.exhaustive = True
     ctx.extra['exhaustive_part'] = 'policy stream (accessor x species kinds x stored keys x wavelengths x flags)'
+
+
+def run_record(ctx, cat, repo, d, verbose=False):
+    """execute one recorded input (corpus / replay) against the current tree through the same K + S code paths"""
+    from cherab.core.atomic import elements as E
+    if d.get('kind') == 'policy':
+        spec = cat[d['accessor']]
+        species = [getattr(E, n) for n in d['species']]
+        stored = [tuple(k) for k in d['stored']]
+        root, ch, tags, wls = build_policy_repo(repo, spec, species, stored, d['wavelengths'])
+        line, o, m = run_policy(ctx, d['accessor'], spec, root, ch, tags, wls, species, stored, d['null'], d['fallback'], d['extrapolate'])
+        model = drive(ctx, [line])[0]
+    elif d.get('kind') == 'wavelength':
+        line, o, m = wavelength_case(ctx, repo, getattr(E, d['species']), d['wavelengths'], d['fallback'])
+        model = drive(ctx, [line])[0]
+    elif d.get('kind') == 'numeric':
+        spec = cat[d['accessor']]
+        tab = d['table']
+        if spec['shape'] == 'beamCX':
+            tab = dict(metastables={int(d.get('metastable') or 1): tab})
+        fixed = dict(species=[getattr(E, n) for n in d['species']], ch=d['charges'], tr=tuple(d['transition']), tab=tab, wls=d['wavelengths'],
+                     fb=d['fallback'], extra=dict(point=d['point'], args=d['args'], info=d['info']) if 'args' in d else None)
+        numeric_stream(ctx, cat, [(d['accessor'], tuple(d['dims']), d['extrapolate'], None, fixed)])
+        return True
+    else:
+        return False
+    ctx.traces += 1
+    if o != model:
+        ctx.disagreements += 1
+        _broke(ctx, 'recorded input ' + d.get('accessor', 'wavelength'), dict(input=d, model=model, implementation=o))
+    if verbose:
+        print('implementation: %s   model: %s' % (o, model))
+    return True
+
+
+def corpus_stream(ctx, cat):
+    """minimised past failures first"""
+    d = os.path.join(os.path.dirname(os.path.dirname(os.path.dirname(os.path.abspath(__file__)))), 'corpus', 'C07')
+    if not os.path.isdir(d):
+        return
+    repo = Repo()
+    for f in sorted(os.listdir(d)):
+        if f.endswith('.json'):
+            rec = json.load(open(os.path.join(d, f)))
+            before = set(SIGNATURES)
+            run_record(ctx, cat, repo, rec['replay'])
+            ctx.count('corpus')
+            ctx.count('corpus-still-failing' if rec.get('signature') in SIGNATURES else 'corpus-no-longer-failing')
+    repo.close()
 
 
 def replay(ctx, path):
@@ -1053,25 +1103,8 @@ def replay(ctx, path):
     repo = Repo()
     try:
         constants_check(ctx)
-        if d.get('kind') == 'policy':
-            spec = cat[d['accessor']]
-            species = [getattr(E, n) for n in d['species']]
-            stored = [tuple(k) for k in d['stored']]
-            root, ch, tags, wls = build_policy_repo(repo, spec, species, stored, d['wavelengths'])
-            line, o, m = run_policy(ctx, d['accessor'], spec, root, ch, tags, wls, species, stored, d['null'], d['fallback'], d['extrapolate'])
-            print('implementation: %s   model: %s' % (o, drive(ctx, [line])[0]))
-        elif d.get('kind') == 'wavelength':
-            line, o, m = wavelength_case(ctx, repo, getattr(E, d['species']), d['wavelengths'], d['fallback'])
-            print('implementation: %s   model: %s' % (o, drive(ctx, [line])[0]))
-        elif d.get('kind') == 'numeric':
-            spec = cat[d['accessor']]
-            tab = d['table']
-            if spec['shape'] == 'beamCX':
-                tab = dict(metastables={int(d.get('metastable') or 1): tab})
-            tr_ = d['transition']
-            fixed = dict(species=[getattr(E, n) for n in d['species']], ch=d['charges'], tr=tuple(tr_), tab=tab, wls=d['wavelengths'],
-                         fb=d['fallback'], extra=dict(point=d['point'], args=d['args'], info=d['info']) if 'args' in d else None)
-            numeric_stream(ctx, cat, [(d['accessor'], tuple(d['dims']), d['extrapolate'], None, fixed)])
+        if run_record(ctx, cat, repo, d, verbose=True):
+            pass
         else:
             print('no targeted replay for this record; running the whole check')
             repo.close()
